@@ -40,6 +40,10 @@ def _seqs(tier):
 def shapes(tier, seed):
     acts = meprogs.actions("std")
     content = [p for p in _seqs(tier) if any(o in ("xfer", "mat") for o in ops_of(p))]
+    Xl, Sl = ("leaf", "X"), ("leaf", "S")
+    for base in (Sl, ("mat", ("xfer", Xl, "sq"), "md0"), Xl, ("mat", ("xfer", Sl, "it1"), "md0")):
+        for op in (("dedup", base), ("proj", ("dedup", base), ("a", "b")), ("slice", ("sort", ("dedup", base), ((meprogs.A, True), (meprogs.B, True), (meprogs.C, True))), 0, 1)):
+            content += [("mat", op, "md1"), ("xfer", ("mat", op, "md1"), "it2"), ("mat", ("mat", op, "md1"), "md2")]
     out = [{"kind": "content", "progs": content[i:i + 20]} for i in range(0, len(content), 20)]
     # locked-node identity under every later factory call
     ident = []
